@@ -89,3 +89,4 @@ _p('C03', ['r_table'],
    "wasm-encoder's own reencode table prescribes (same opcode, every immediate fed by the same-named field, every "
    'index through the index space the oracle names, no narrowing cast on the way).',
    not_decided='that wasm-encoder serialises an Instruction value correctly (trusted)')
+PROPERTIES['C03']['rules'] = ['r_table', 'r_control']
